@@ -183,15 +183,17 @@ class MultiLine(Layout):
 
     @staticmethod
     def _spread(expr: str) -> str:
-        return expr.replace(" | ", "\n      | ").replace(", ", ",\n      ")
+        # filter names and arguments start a line (column 0)
+        return expr.replace(" | ", "\n      |\n").replace(", ", ",\n")
 
     def tag(self, name: str, expr: str, depth: int) -> str:
         if name == "#":  # every line of an inline comment starts with '#'
             return "{%-\n  # " + expr.replace(" | ", "\n  # | ") + "\n-%}"
-        return "{%-\n  " + name + ("\n    " + self._spread(expr) if expr else "") + "\n-%}"
+        # the tag name and the first name of its expression start a line (column 0)
+        return "{%-\n" + name + ("\n" + self._spread(expr) if expr else "") + "\n-%}"
 
     def out(self, expr: str, depth: int) -> str:
-        return "{{-\n    " + self._spread(expr) + "\n-}}"
+        return "{{-\n" + self._spread(expr) + "\n-}}"
 
     def liquid(self, lines: list[tuple[str, str]], depth: int) -> str:
         return "{%-\n\n liquid\n\n" + "".join(f"\t{n}   {e}".rstrip() + "\n\n" for n, e in lines) + "-%}"
@@ -208,7 +210,7 @@ class Tabs(Layout):
         return "{%\t" + name + ("\t" + expr if expr else "") + "\t-%}\r\n"
 
     def out(self, expr: str, depth: int) -> str:
-        return "{{-\t" + expr + "\t}}\r\n"
+        return "{{-\r\n" + expr + "\t}}\r\n"   # the expression starts a line after a CRLF
 
     def liquid(self, lines: list[tuple[str, str]], depth: int) -> str:
         return "{%\tliquid\r\n" + "".join(f"\t{n}\t{e}".rstrip() + "\r\n" for n, e in lines) + "%}"
@@ -222,17 +224,17 @@ class LiquidLines(Layout):
     suffix = "-%}\npost\n"
 
     def tag(self, name: str, expr: str, depth: int) -> str:
-        return "  " * (depth + 1) + name + (" " + expr if expr else "") + "\n"
+        return "  " * depth + name + (" " + expr if expr else "") + "\n"
 
     def out(self, expr: str, depth: int) -> str:
-        return "  " * (depth + 1) + "echo " + expr + "\n"
+        return "  " * depth + "echo " + expr + "\n"
 
     def text(self, s: str, depth: int) -> str:
         assert "'" not in s and "\n" not in s, s
-        return "  " * (depth + 1) + "echo '" + s + "'\n\n"
+        return "  " * depth + "echo '" + s + "'\n\n"
 
     def liquid(self, lines: list[tuple[str, str]], depth: int) -> str:
-        return "".join("  " * (depth + 1) + f"{n} {e}".rstrip() + "\n" for n, e in lines)
+        return "".join("  " * depth + f"{n} {e}".rstrip() + "\n" for n, e in lines)
 
 
 LAYOUTS: dict[str, Layout] = {l.name: l for l in (Layout(), MultiLine(), Tabs(), LiquidLines())}
@@ -300,6 +302,7 @@ class _Printer:
                 lay, reopen = LAYOUTS["plain"], True
             start = self.pos
             opener: Optional[str] = None
+            opened: Optional[int] = None  # where the opening tag ends: its own expression is outside the block
             closed: Optional[int] = None
             for tok in con.toks:
                 k = tok[0]
@@ -315,6 +318,7 @@ class _Printer:
                     self.emit(lay.tag(tok[1], tok[2], depth))
                     if opener is None:
                         opener = tok[1]
+                        opened = self.pos
                     elif closed is None and tok[1] == "end" + opener:
                         closed = self.pos  # the block (and its bindings) ends with its end tag
                 elif k == "out":
@@ -329,7 +333,9 @@ class _Printer:
             if reopen:
                 self._raw("{%- liquid\n  echo ''\n")
             if con.binds:
-                self.p.binds.append((start, end, con.binds))
+                # a block binds its names for what it encloses; the expression of the opening tag itself (the
+                # iterable, `with` values, macro defaults, limit/cols arguments) is evaluated outside the block
+                self.p.binds.append((opened if opened is not None else start, end, con.binds))
             for nm in con.assigns:
                 self.p.assigns.append((start, end, nm, "assign"))
             for nm in con.counts:
@@ -409,6 +415,8 @@ LEAVES: list[Con] = [
     _inc("row.html", " for $a", ("row",)),
     _ren("row.html", " with $y, v: $x", ("row", "v"), ("v",)),
     _ren("row.html", " with $y as v", ("v",)),
+    _inc("t"),
+    _ren("t", ", n: 2, v: $y", ("n", "v"), ("n", "v")),
 ]
 
 BLOCKS: list[Con] = [
@@ -427,6 +435,11 @@ BLOCKS: list[Con] = [
     Con("{% block b %}{B}{{ $s }}{% endblock %}", binds=("block",), site=Site("block", None, ("block",))),
     Con("{% block c %}{{ $block.super }}{B}{% endblock %}", binds=("block",), site=Site("block", None, ("block",))),
     Con("{% ifchanged %}{B}{% endifchanged %}"),
+    # the opening tag's own expression names what the tag binds; loop arguments are variables
+    Con("{% for v in $v.items limit: $lim offset: $off %}{B}{% endfor %}", binds=("v", "forloop")),
+    Con("{% tablerow v in $v.cells cols: $n offset: $tablerowloop.col %}{B}{% endtablerow %}", binds=("v", "tablerowloop")),
+    Con("{% with v: $v.next, w: $w %}{B}{% endwith %}", binds=("v", "w")),
+    Con("{% macro m v, q: $v %}{B}{{ $q }}{% endmacro %}{% call m $x %}", binds=("v", "q", "args", "kwargs")),
 ]
 
 DEFAULT_BODY: list[Item] = [Item(Con("[{{ $v }}]"))]
@@ -459,6 +472,12 @@ PARTIAL_ITEMS: dict[str, list[Item]] = {
     # p and row.html refer to a variable named like themselves (the implicit `with` / `for` binding of a partial)
     "p": [_I("<p:{{ $v }}{{ $x | upcase }}{{ $s }}{{ $p.t }}>")],
     "row.html": [_I("<row:{{ $row.c | default: $v }}>")],
+    "t": [
+        _I("<t:"),
+        _I("{% tablerow v in $a cols: $n offset: $off %}{B}{% endtablerow %}", [_I("{{ $v }}")], binds=("v", "tablerowloop")),
+        _I("{% for v in $v.items limit: $lim %}{B}{% endfor %}", [_I("{{ $v }}")], binds=("v", "forloop")),
+        _I(">"),
+    ],
     "q": [
         _I("<q:"),
         _I("{% assign s = 'qs' %}", assigns=("s",)),
@@ -500,8 +519,9 @@ PARTIAL_ITEMS: dict[str, list[Item]] = {
 DATA: list[tuple[str, dict[str, Any]]] = [
     ("D1", {"x": 1, "y": {"a": "A", "b": [1, 2], 1: "one"}, "a": [1, 2, 3], "v": "gv", "s": "gs", "w": "gw",
             "a b": {"c": "abc"}, "c": 9, "forloop": {"index": "gf"}, "q": "gq", "args": [1], "block": {"super": "gb"},
-            "p": {"t": "gp"}, "row": {"c": "gr"}}),
-    ("D2", {"x": "a", "y": {"a": None, "b": []}, "a": [], "v": "gv", "s": "gs", "w": "gw", "a b": {}, "c": 9,
+            "p": {"t": "gp"}, "row": {"c": "gr"}, "lim": 2, "off": 0, "n": 2, "tablerowloop": {"col": 1}}),
+    ("D2", {"x": "a", "y": {"a": None, "b": []}, "a": [], "v": {"items": [5, 6], "cells": [1, 2, 3], "next": "nx"},
+            "lim": 1, "off": 1, "n": 3, "s": "gs", "w": "gw", "a b": {}, "c": 9,
             "p": {"t": "gp"}, "row": {"c": None}}),
     ("D3", {"x": False, "y": {"a": 0, "b": [7]}, "a": [4], "v": False, "s": "gs", "w": "gw", "p": "gp", "row": "gr"}),
     ("D4", {}),
